@@ -197,12 +197,64 @@ def parseInt256 (p : Str) : Outcome (List UInt8) :=
   | .err e => .err e
   | .panic e => .panic e
 
-/-! ### ton.Bits256: `fmt.Fscanf(r, "\"%x\"", &sl)` (fmt/scan.go), modelled on ASCII input -/
+/-! ### UTF-8 decoding as Go does it for rune-wise code (`range` over a string, fmt's ReadRune)
 
-/-- fmt's isSpace restricted to code points below 256 -/
+`utf8.DecodeRune`: a well-formed sequence gives its code point; anything else (stray continuation byte, overlong
+form, surrogate, value above U+10FFFF, truncated sequence) gives U+FFFD and consumes ONE byte. Input characters are
+bytes (below 256); a character that is not a byte is passed through. -/
+
+def isCont (c : Char) : Bool := 0x80 ≤ c.toNat && c.toNat ≤ 0xBF
+def runeError : Char := Char.ofNat 0xFFFD
+
+/-- the first rune of a non-empty byte string and the number of bytes it occupies -/
+def decodeRune1 (c : Char) (r : Str) : Char × Nat :=
+  let b0 := c.toNat
+  if b0 < 0x80 ∨ 0x100 ≤ b0 then (c, 1)
+  else if 0xC2 ≤ b0 ∧ b0 ≤ 0xDF then
+    match r with
+    | c1 :: _ => if isCont c1 then (Char.ofNat ((b0 % 32) * 64 + c1.toNat % 64), 2) else (runeError, 1)
+    | _ => (runeError, 1)
+  else if 0xE0 ≤ b0 ∧ b0 ≤ 0xEF then
+    match r with
+    | c1 :: c2 :: _ =>
+      let lo := if b0 = 0xE0 then 0xA0 else 0x80
+      let hi := if b0 = 0xED then 0x9F else 0xBF
+      if lo ≤ c1.toNat ∧ c1.toNat ≤ hi ∧ isCont c2 then
+        (Char.ofNat (((b0 % 16) * 64 + c1.toNat % 64) * 64 + c2.toNat % 64), 3)
+      else (runeError, 1)
+    | _ => (runeError, 1)
+  else if 0xF0 ≤ b0 ∧ b0 ≤ 0xF4 then
+    match r with
+    | c1 :: c2 :: c3 :: _ =>
+      let lo := if b0 = 0xF0 then 0x90 else 0x80
+      let hi := if b0 = 0xF4 then 0x8F else 0xBF
+      if lo ≤ c1.toNat ∧ c1.toNat ≤ hi ∧ isCont c2 ∧ isCont c3 then
+        (Char.ofNat ((((b0 % 8) * 64 + c1.toNat % 64) * 64 + c2.toNat % 64) * 64 + c3.toNat % 64), 4)
+      else (runeError, 1)
+    | _ => (runeError, 1)
+  else (runeError, 1)
+
+/-- the runes of a byte string; `fuel` (the length suffices) bounds the recursion -/
+def utf8DecodeF : Nat → Str → Str
+  | 0, _ => []
+  | _, [] => []
+  | fuel + 1, c :: r =>
+    let (ru, w) := decodeRune1 c r
+    ru :: utf8DecodeF fuel (r.drop (w - 1))
+
+def utf8Decode (s : Str) : Str := utf8DecodeF s.length s
+
+/-- `for _, x := range s { … uint8(x) … }`: the runes truncated to a byte (how BitStringFromFiftHex read its input
+before it was made byte-wise; kept for the record) -/
+def runeBytes (s : Str) : Str := (utf8Decode s).map fun r => Char.ofNat (r.toNat % 256)
+
+/-! ### ton.Bits256: `fmt.Fscanf(r, "\"%x\"", &sl)` (fmt/scan.go) -/
+
+/-- fmt's isSpace (a copy of unicode.White_Space below U+10000) -/
 def isScanSpace (c : Char) : Bool :=
   let n := c.toNat
-  (9 ≤ n && n ≤ 13) || n == 32 || n == 0x85 || n == 0xa0
+  (9 ≤ n && n ≤ 13) || n == 32 || n == 0x85 || n == 0xa0 || n == 0x1680 || (0x2000 ≤ n && n ≤ 0x200a) ||
+    n == 0x2028 || n == 0x2029 || n == 0x202f || n == 0x205f || n == 0x3000
 
 /-- ss.SkipSpace with nlIsSpace = false: a newline is an error ("unexpected newline") -/
 def scanSkipSpace : Str → Outcome Str
@@ -228,7 +280,8 @@ def scanHexPairs : Str → Outcome (List UInt8 × Str)
         | .err e => .err e
         | .panic e => .panic e
 
-def parseBits256Scan (buf : Str) : Outcome (List UInt8) :=
+/-- the scan over the runes of the input -/
+def parseBits256ScanR (buf : Str) : Outcome (List UInt8) :=
   match buf with
   | '"' :: r =>
     match scanSkipSpace r with
@@ -247,6 +300,8 @@ def parseBits256Scan (buf : Str) : Outcome (List UInt8) :=
     | .err e => .err e
     | .panic e => .panic e
   | _ => .err "input does not match format"
+
+def parseBits256Scan (buf : Str) : Outcome (List UInt8) := parseBits256ScanR (utf8Decode buf)
 
 /-! ## Grams, SignedCoins, Magic, Maybe -/
 
@@ -290,7 +345,7 @@ def parseMaybe {α} (pa : Str → Outcome α) (b : Str) : Outcome (Option α) :=
     | .err e => .err e
     | .panic e => .panic e
 
-/-! ## Fift hex (boc.BitString.ToFiftHex / BitStringFromFiftHex), ASCII input -/
+/-! ## Fift hex (boc.BitString.ToFiftHex / BitStringFromFiftHex) -/
 
 def nibblesOf : List Bool → List Nat
   | a :: b :: c :: d :: r => (8 * a.toNat + 4 * b.toNat + 2 * c.toNat + d.toNat) :: nibblesOf r
@@ -308,7 +363,7 @@ def endingBits (n : Nat) : Option (List Bool) :=
 
 def nibblesToBits (ns : List Nat) : List Bool := ns.flatMap (Bits.natToBits 4)
 
-/-- hexToInt on every character -/
+/-- hexToInt on every byte (since `fix: BitStringFromFiftHex rejects non-ASCII characters` the loop is byte-wise) -/
 def nibblesOfHex : Str → Option (List Nat)
   | [] => some []
   | c :: r =>
@@ -386,7 +441,7 @@ def scanUint32 (s : Str) : Outcome (Nat × Str) :=
   | .panic e => .panic e
 
 /-- fmt.Sscanf(s, "%d,%d", &depth, &prefix): trailing input is ignored -/
-def scanAnycast (s : Str) : Outcome Anycast :=
+def scanAnycastR (s : Str) : Outcome Anycast :=
   match scanUint32 s with
   | .ok (d, r) =>
     match r with
@@ -398,6 +453,8 @@ def scanAnycast (s : Str) : Outcome Anycast :=
     | _ => .err "input does not match format"
   | .err e => .err e
   | .panic e => .panic e
+
+def scanAnycast (s : Str) : Outcome Anycast := scanAnycastR (utf8Decode s)
 
 /-- Go slice expression `s[lo:hi]` on a string: panics unless lo ≤ hi ≤ len -/
 def goSlice (s : Str) (lo hi : Nat) : Outcome Str :=
